@@ -3,7 +3,7 @@
    exception for the pinned one.  The codec facts are hypotheses of the section
    (checked against real pickle in the correspondence run) and are discharged
    for the toy length-prefixed codec of Model/Cache.v. *)
-From Coq Require Import ZArith List Bool Lia.
+From Coq Require Import ZArith List Bool Lia Arith.
 From PG Require Import Lib.Str Model.Cache.
 Import ListNotations.
 Local Open Scope Z_scope.
@@ -53,7 +53,32 @@ Section Facts.
     now apply (pinned_crashes s b g q).
   Qed.
 
+  (* the reply of a listing request does not depend on what the cache write does *)
+  Lemma save_outcome_irrelevant rep (s : state) (p : P) k :
+    snd (step rep s (ListF p k)) = snd (step rep s (List p)).
+  Proof.
+    simpl. unfold do_list, do_list_f. destruct (loadcache decode life s); try reflexivity. destruct rep; reflexivity.
+  Qed.
+
+  (* after a failed write the file is the k-byte prefix of the complete entry (or unchanged on a hit) *)
+  Lemma failed_save_leaves_prefix (s : state) (p : P) k :
+    loadcache decode life s <> Hit (gen (dir s)) -> (forall l, loadcache decode life s <> Hit l) ->
+    file (fst (step true s (ListF p k))) = Some (now s, firstn k (enc (gen (dir s)))).
+  Proof.
+    intros _ NH. simpl. unfold do_list_f. destruct (loadcache decode life s) as [l| |]; [exfalso; now apply (NH l)| |]; reflexivity.
+  Qed.
+
   Hypothesis prefix_fails : forall l g, strict_prefix g (enc l) -> decode g = None.
+
+  (* every cut point is harmless: the hypothesis op_ok asks of ListF *)
+  Lemma cut_ok k l : decode (firstn k (enc l)) = None \/ firstn k (enc l) = enc l.
+  Proof.
+    destruct (Nat.le_gt_cases (List.length (enc l)) k) as [H|H].
+    - right. now apply firstn_all2.
+    - left. apply (prefix_fails l). exists (skipn k (enc l)). split.
+      + intros E. apply (f_equal (@List.length N)) in E. rewrite skipn_length in E. simpl in E. lia.
+      + symmetry. apply firstn_skipn.
+  Qed.
 
   Lemma prefix_harmless (s : state) b l g (p : P) :
     file s = Some (b, g) -> strict_prefix g (enc l) ->
